@@ -297,6 +297,23 @@ pub enum SEnum {
     I { only: u16 },
     J { zeta: u8, alpha: bool },
 }
+/// explicit discriminants that are not ascending in declaration order: serde's variant index is the
+/// declaration position, whatever the discriminant says
+#[derive(Serialize, Schema, Clone, Debug)]
+pub enum EDisc {
+    Reset = 0x10,
+    Read = 1,
+    Write = 2,
+    Last = -3,
+}
+#[derive(Serialize, Schema, Clone, Debug)]
+#[repr(u8)]
+pub enum EDiscPayload {
+    Data(u8) = 9,
+    Idle = 1,
+    Named { x: u16 } = 4,
+    Pair(u8, bool) = 0,
+}
 /// raw identifiers: serde names the items `type`, `match`, `loop` (without the `r#` marker)
 #[derive(Serialize, Schema, Clone, Debug)]
 pub struct SRaw {
@@ -498,6 +515,8 @@ fn run_corpus(r: &mut Runner) {
     r.list::<SLife>("SLife<'a>", vec![SLife { s: "", b: &[], n: &n }, SLife { s: "é", b: &[0, 255], n: &n }]);
     r.list::<SRaw>("SRaw(raw identifiers)", vec![SRaw { r#type: 1, plain: true, r#match: -300 }]);
     r.list::<ERaw>("ERaw(raw identifiers)", vec![ERaw::r#loop, ERaw::r#fn(7), ERaw::Plain { r#ref: 300 }]);
+    r.list::<EDisc>("EDisc(explicit discriminants)", vec![EDisc::Reset, EDisc::Read, EDisc::Write, EDisc::Last]);
+    r.list::<EDiscPayload>("EDiscPayload(explicit discriminants)", vec![EDiscPayload::Data(7), EDiscPayload::Idle, EDiscPayload::Named { x: 300 }, EDiscPayload::Pair(1, true)]);
     r.list::<SEnum>("SEnum", senum_vals());
     r.list::<SBig>("SBig(130 variants)", SBig::all());
     r.list::<(SBig, u8)>("(SBig, u8)", SBig::all().into_iter().map(|e| (e, 5u8)).collect());
